@@ -7,7 +7,7 @@ def run(ctx: Ctx) -> int:
     t = ctx.pick(200, 900)
     jobs = [Job(H, "h_first_applicable", timeout=t, env={"VERIF_C15_SHARD": "0/64"})]
     nsh = 4
-    jobs += [Job(H, "h_programs", timeout=t, name=f"h_programs[shard {i + 1}/{nsh}]", env={"VERIF_C15_SHARD": f"{i}/{nsh}"}) for i in range(nsh)]
+    jobs += [Job(H, "h_programs", timeout=t, name=f"h_programs[shard {i + 1}/{nsh}]", env={"VERIF_C15_SHARD": f"{i}/{nsh}"}, session_call="h_session()") for i in range(nsh)]
     ctx.functions_encoded = ["definition/overloaded.py: OverloadedFunctionDef.check_call, synthesize_call, _call_error, OverloadNoMatchError, AvailableOverloadsHint",
                              "guppylang/decorator.py: guppy.overload; checker/expr_checker.py: check_call / synthesize_call of the variants, numeric coercion of arguments (through the real check())"]
     ctx.bounds = {"kernel": "1..4 variants, each succeeding or raising a GuppyError (symbolic), synthesis and checking", "programs": "22 overload sets (arity, int/float/nat/bool, generic, tuple, differing result types, overload sets nested as variants, variants that accept an earlier argument and fail on a later one, variants sharing one Python function name; 2-4 variants, "
